@@ -8,6 +8,7 @@ package compare
 //@ abstract: option-type
 
 //@ func (g *gen) field(thisField, thatField string, fieldType types.Type) (s string, err error)
+//@ thorough-arity: 4
 //@ abstract: expr classes=Call
 //@ param thisField: classes=Primary,Star,Amp type=fieldType
 //@ param thatField: sameclass=thisField type=fieldType
@@ -26,6 +27,7 @@ package compare
 // operand texts; both callers pass exactly "this" and "that" (g-requires,
 // checked at the call sites), so the operands are rendered under those names.
 //@ func (g *gen) genStatement(typ types.Type, this, that string) (err error)
+//@ thorough-arity: 4
 //@ abstract: stmt returns
 //@ param this: classes=Ident type=typ
 //@ param that: sameclass=this type=typ
@@ -44,6 +46,7 @@ package compare
 //@ o-loop: when kind(typ)=Map 1: invariant forall j int :: 0 <= j && j < $i ==> thiskeys[j] == thatkeys[j] && CmpC(elem(typ), this[thiskeys[j]], that[thatkeys[j]]) == 0
 
 //@ func (g *gen) genFunc(typs []types.Type) (err error)
+//@ thorough-arity: 4
 //@ param typs: len=2 identical
 //@ emits: decls
 //@ serves: compare len=2 typs=typs
@@ -52,6 +55,7 @@ package compare
 //@ o-ensures: [compare] r == CmpTop(typs0, this, that)
 
 //@ func (g *gen) genCurriedFunc(typ types.Type) (err error)
+//@ thorough-arity: 4
 //@ emits: decls
 //@ serves: compare len=1 typ=typs[0]
 //@ o-sig: (this $typ) (r func($typ) int)
